@@ -9,7 +9,9 @@
              [KG write lock: set-semantics apply, publish, return]  -> next op
      delete: [dropping guard, time, WAL, buffer]         -> se:delete:before_kg_lock
              [KG write lock: apply, publish, return]     -> next op
-     rule  : [KG write lock: catalog add, publish, return] -> next op
+     rule catalog operations (register a clause, remove a clause by index, drop a rule, clear a
+     rule, replace a clause): [KG write lock: catalog change + save, publish, return] -> next op;
+     a rejected catalog operation (unknown rule, index out of bounds) returns before publishing
      read  : [load the ArcSwap snapshot pointer]         -> read:loaded
              [read relations/rules out of the held snapshot] -> next op
    The persist section has no effect on the state C20 talks about.  Executable definitions only. *)
@@ -20,16 +22,84 @@ Definition fact := (N * N)%type.
 Definition fact_eqb (a b : fact) : bool := N.eqb (fst a) (fst b) && N.eqb (snd a) (snd b).
 Definition memf (f : fact) (l : list fact) : bool := existsb (fact_eqb f) l.
 
-Record view := mkView { vfacts : list fact; vrules : list N }.
+(* the rule catalog: rule (head relation) -> its clauses; a clause is a number (the harness
+   interns clause bodies); a rule can be registered with no clause left (after `clear`) *)
+Definition catalog := list (N * list N).
+Record view := mkView { vfacts : list fact; vrules : catalog }.
 
 Inductive sop :=
 | SIns (id rel : N) (ts : list N)
 | SDel (id rel : N) (ts : list N)
-| SRule (id rel : N)
+| SRule (id rel c : N)                      (* register clause c of rule rel *)
+| SRemClause (id rel : N) (idx : nat)       (* .rule remove rel idx *)
+| SDropRule (id rel : N)
+| SClearRule (id rel : N)
+| SReplace (id rel : N) (idx : nat) (c : N)
 | SRead (id : N).
 
 Definition sop_id (o : sop) : N :=
-  match o with SIns i _ _ => i | SDel i _ _ => i | SRule i _ => i | SRead i => i end.
+  match o with
+  | SIns i _ _ | SDel i _ _ | SRule i _ _ | SRemClause i _ _ | SDropRule i _ | SClearRule i _
+  | SReplace i _ _ _ | SRead i => i
+  end.
+
+Inductive sres :=
+| RIns (new dup : N) | RDel (n : N) | RRule | RRem (deleted : bool) | RErrRule | RErrView
+| RView (v : view).
+
+Fixpoint cat_get (r : N) (cat : catalog) : option (list N) :=
+  match cat with
+  | [] => None
+  | (r', cs) :: rest => if N.eqb r r' then Some cs else cat_get r rest
+  end.
+Fixpoint cat_set (r : N) (cs : list N) (cat : catalog) : catalog :=
+  match cat with
+  | [] => [(r, cs)]
+  | (r', cs') :: rest => if N.eqb r r' then (r, cs) :: rest else (r', cs') :: cat_set r cs rest
+  end.
+Definition cat_del (r : N) (cat : catalog) : catalog := filter (fun e => negb (N.eqb (fst e) r)) cat.
+Fixpoint remove_nth {A} (n : nat) (l : list A) : list A :=
+  match l, n with
+  | [], _ => []
+  | _ :: r, O => r
+  | x :: r, S k => x :: remove_nth k r
+  end.
+Fixpoint set_nth {A} (n : nat) (y : A) (l : list A) : list A :=
+  match l, n with
+  | [], _ => []
+  | _ :: r, O => y :: r
+  | x :: r, S k => x :: set_nth k y r
+  end.
+
+(* RuleCatalog::register_rule / remove_rule_clause / drop / clear_rules / replace_rule:
+   the new catalog and the value returned, or None when the operation is rejected *)
+Definition rule_step (cat : catalog) (o : sop) : option (catalog * sres) :=
+  match o with
+  | SRule _ r c =>
+      match cat_get r cat with
+      | Some cs => Some (cat_set r (if existsb (N.eqb c) cs then cs else cs ++ [c]) cat, RRule)
+      | None => Some (cat ++ [(r, [c])], RRule)
+      end
+  | SRemClause _ r i =>
+      match cat_get r cat with
+      | Some cs =>
+          if Nat.ltb i (length cs)
+          then match remove_nth i cs with
+               | [] => Some (cat_del r cat, RRem true)
+               | cs' => Some (cat_set r cs' cat, RRem false)
+               end
+          else None
+      | None => None
+      end
+  | SDropRule _ r => match cat_get r cat with Some _ => Some (cat_del r cat, RRule) | None => None end
+  | SClearRule _ r => match cat_get r cat with Some _ => Some (cat_set r [] cat, RRule) | None => None end
+  | SReplace _ r i c =>
+      match cat_get r cat with
+      | Some cs => if Nat.ltb i (length cs) then Some (cat_set r (set_nth i c cs) cat, RRule) else None
+      | None => None
+      end
+  | _ => None
+  end.
 
 (* insert_in_memory: push the tuples that are not yet present, in batch order *)
 Definition ins_all (rel : N) (ts : list N) (fs : list fact) : list fact :=
@@ -43,13 +113,13 @@ Definition apply_op (v : view) (o : sop) : view :=
   match o with
   | SIns _ r ts => mkView (ins_all r ts (vfacts v)) (vrules v)
   | SDel _ r ts => mkView (del_all r ts (vfacts v)) (vrules v)
-  | SRule _ r => mkView (vfacts v) (if existsb (N.eqb r) (vrules v) then vrules v else vrules v ++ [r])
   | SRead _ => v
+  | _ => match rule_step (vrules v) o with
+         | Some (cat', _) => mkView (vfacts v) cat'
+         | None => v
+         end
   end.
 Definition state_after (v0 : view) (ops : list sop) : view := fold_left apply_op ops v0.
-
-Inductive sres :=
-| RIns (new dup : N) | RDel (n : N) | RRule | RErrView | RView (v : view).
 
 Record obsv := mkObs { o_tid : nat; o_id : N; o_view : view; o_k : nat; o_own : list N }.
 
@@ -80,7 +150,7 @@ Definition step20 (t : nat) (l : l20) (g : g20) : l20 * g20 :=
   | o :: rest =>
       match o, pc l with
       | SIns id r ts, O =>
-          if existsb (N.eqb r) (vrules (live g)) then (finish l rest id RErrView false, g)
+          if existsb (N.eqb r) (map fst (vrules (live g))) then (finish l rest id RErrView false, g)
           else (advance l, g)
       | SIns id r ts, S O => (advance l, g)
       | SIns id r ts, _ =>
@@ -95,13 +165,18 @@ Definition step20 (t : nat) (l : l20) (g : g20) : l20 * g20 :=
           let after := length (del_all r ts (vfacts (live g))) in
           let n := N.of_nat (before - after) in
           (finish l rest id (RDel n) true, write_section g o (negb (N.eqb n 0)))
-      | SRule id r, _ => (finish l rest id RRule true, write_section g o true)
       | SRead id, O =>
           (mkL 1 (todo l) (snap g) (length (alog g)) (acked l) (res l), g)
       | SRead id, _ =>
           (finish l rest id (RView (held l)) false,
            mkG (live g) (snap g) (alog g)
                (gobs g ++ [mkObs t id (held l) (held_k l) (acked l)]))
+      | _, _ =>
+          (* a catalog operation: one KG write section; rejected operations return before the publish *)
+          match rule_step (vrules (live g)) o with
+          | Some (_, r) => (finish l rest (sop_id o) r true, write_section g o true)
+          | None => (finish l rest (sop_id o) RErrRule false, g)
+          end
       end
   end.
 
@@ -116,12 +191,16 @@ Definition label20 (l : l20) : N :=
       | SIns _ _ _, _ => 2                    (* se:insert:before_kg_lock *)
       | SDel _ _ _, _ => 3                    (* se:delete:before_kg_lock *)
       | SRead _, _ => 4                       (* read:loaded *)
-      | SRule _ _, _ => 8
+      | _, _ => 8
       end
   end.
 
 (* ---- comparison of views up to order *)
 Definition same_facts (a b : list fact) : bool :=
   Nat.eqb (length a) (length b) && forallb (fun f => memf f b) a && forallb (fun f => memf f a) b.
+(* the clauses a snapshot carries, as numbers head * 1000 + clause (a rule without clauses is
+   invisible in a snapshot) *)
+Definition flat_rules (cat : catalog) : list N :=
+  flat_map (fun e => map (fun c => fst e * 1000 + c) (snd e)) cat.
 Definition same_view (a b : view) : bool :=
-  same_facts (vfacts a) (vfacts b) && perm_Nb (vrules a) (vrules b).
+  same_facts (vfacts a) (vfacts b) && perm_Nb (flat_rules (vrules a)) (flat_rules (vrules b)).
